@@ -21,6 +21,7 @@ ValuesOf(k) ==
     [] k = "word"  -> { <<"a", "_", "1">>, <<"x">> }
     [] k = "all"   -> { <<>>, <<"a">>, <<"a", "/", "b">>, <<"a", "SP", "QM">> }
     [] k = "rest1" -> { <<"a">>, <<"a", "/", "b", "/", "1">> }
+    [] k = "ab"    -> { <<"a">>, <<"b", "a">> }
 
 \* all assignments of a pattern without optional parts: sequences of <<name, value>> in order of appearance
 RECURSIVE AssignSeq(_, _)
@@ -29,7 +30,7 @@ AssignSeq(vs, i) == IF i > Len(vs) THEN { <<>> }
 Assignments(pat) == AssignSeq(VarsOf(pat[1]), 1)
 
 Built(pat, asg)     == SubstLevel(pat[1], asg)
-Routable(pat, asg)  == Norm(FALSE, Built(pat, asg)) = Built(pat, asg)            \* precondition: C11 does not alter the path
+Routable(strict, pat, asg) == Norm(strict, Built(pat, asg)) = Built(pat, asg)   \* precondition: C11 does not alter the path
 UniqueBack(pat, asg) == Decomps(pat, Built(pat, asg)) = {asg}
 \* the fact: whenever the values satisfy the classes, the built path matches the pattern and one decomposition is asg
 RoundTrip(pat, asg) == asg \in Decomps(pat, Built(pat, asg))
